@@ -344,6 +344,8 @@
 )]
 
 mod has_more;
+#[cfg(orx_concurrent_iter_verif)]
+mod verif_shim;
 /// Module defining concurrent iterator traits and implementations.
 pub mod iter;
 mod next;
